@@ -291,7 +291,12 @@ class Parser:
                         flag = True
 
                 case TokenType.BRACKET_RIGHT:
-                    break
+                    if flag:
+                        break
+
+                    # an empty split, e.g. `( )`
+                    self._read_token()
+                    flag = True
 
                 case TokenType.FLOAT:
                     current = self._parse_node(current)
@@ -307,6 +312,13 @@ class Parser:
                     flag = True
 
                 case TokenType.OR:
+                    if not flag:
+                        # the split starts with an empty alternative
+                        self._parse_subtree(current)
+                        self._assert_and_cunsume(TokenType.BRACKET_RIGHT)
+                        flag = True
+                        continue
+
                     current = root
                     self._read_token()
                     flag = True
